@@ -520,6 +520,62 @@ def check_tee_close(case):
 
 
 @st.composite
+def tee_nolock_cases(draw):
+    return {"n": draw(st.integers(2, 3)), "length": draw(st.integers(1, 4)), "susp": draw(st.integers(1, 2)),
+            "drop": draw(st.booleans()), "csusp": draw(st.booleans()),
+            "choices": draw(st.lists(st.integers(0, 2), max_size=30))}
+
+
+def check_tee_nolock(case):
+    """tee WITHOUT a lock over a class-based source, driven by hand while a real asyncio loop is running: overlapping
+    fetches of the children (the data may then be whatever it is - C09 requires a lock for that) and a never-advanced
+    child that is simply dropped.  Every suspension must still belong to the source."""
+    import gc
+    import asyncstdlib as a
+    from ..driver import Scheduler
+    from .c09 import LazySource
+
+    def body():
+        ctx = Ctx("a")
+        src = LazySource(ctx, case["length"], case["susp"])
+        if case["csusp"]:
+            plain_close = src.aclose
+
+            async def suspending_close():
+                await ctx.suspend(("source", "close"))
+                await plain_close()
+
+            src.aclose = suspending_close
+        children = list(a.tee(src, case["n"]))
+        dropped = children.pop() if case["drop"] else None
+
+        async def reader(i):
+            try:
+                async for _ in children[i]:
+                    pass
+            except RuntimeError:
+                pass
+            await children[i].aclose()
+
+        sched = Scheduler(ctx, [(f"r{i}", reader(i)) for i in range(len(children))], case["choices"], max_steps=800)
+        sched.run()
+        del dropped
+        gc.collect()
+        return ctx, sched
+
+    ctx, sched = under_asyncio(body)
+    if ctx.foreign:
+        raise Violation("C17/tee-nolock/foreign-suspension",
+                        f"{[repr(x)[:60] for x in ctx.foreign[:3]]} config={case}")
+    if sched.verdict:
+        raise Violation(f"C17/tee-nolock/{sched.verdict}", f"config={case}")
+    errs = ctx.protocol_errors()
+    unseen = [s_.origin for s_ in ctx.issued if not s_.seen]
+    if errs or unseen:
+        raise Violation("C17/tee-nolock/suspension-not-driven-by-the-loop", f"{errs[:2]} unseen={unseen[:2]} config={case}")
+
+
+@st.composite
 def groupby_conc_cases(draw):
     return {"runs": draw(st.lists(st.integers(1, 3), min_size=1, max_size=4)), "susp": draw(st.integers(1, 2)),
             "take": draw(st.integers(0, 3)), "advances": draw(st.integers(1, 3)),
@@ -632,6 +688,8 @@ def shards(tier):
     out += [Shard(f"sync-huge-{name}", check_sync, strategy=huge_cases(name).map(lambda c: dict(c, real_loop=True)), n=2,
                   nontrivial=lambda c: True, thorough_mult=2) for name in HUGE if name in TOOLS]
     out.append(Shard("tee-concurrent-close", check_tee_close, strategy=tee_close_cases(), n=400,
+                     nontrivial=lambda c: True, thorough_mult=10))
+    out.append(Shard("tee-nolock", check_tee_nolock, strategy=tee_nolock_cases(), n=300,
                      nontrivial=lambda c: True, thorough_mult=10))
     out.append(Shard("groupby-concurrent", check_groupby_concurrent, strategy=groupby_conc_cases(), n=400,
                      nontrivial=lambda c: True, thorough_mult=10))
